@@ -102,6 +102,23 @@ func init() {
 				}
 			}
 		}
+		// word counts swept around 128 and 256 (index lengths around powers of two), two bitmaps per length so that
+		// an index built earlier is still in use when the next one is built
+		for l := 120; l <= 262; l++ {
+			if l > 134 && l < 250 {
+				continue
+			}
+			for rep := 0; rep < 2; rep++ {
+				ws := g.words(l, rep == 1)
+				s := showU64s(ws)
+				g.emit("idxrank128 %s", s)
+				g.emit("idxrank64 %s %d", s, rep)
+				for _, i := range []int{65, 64*l - 1, g.intn(64 * l)} {
+					g.emit("rank128 %s %d", s, i)
+					g.emit("rank64 %s %d %d", s, rep, i)
+				}
+			}
+		}
 		// large bitmaps: more than 2^16 bits and more than 2^16 one-bits (the naive specification is not
 		// evaluated at this size; the model, proved equal to it, decides)
 		for _, l := range []int{1030, 2101} {
@@ -189,6 +206,49 @@ func init() {
 				}
 			}
 		}
+		// sparse stretches: clusters of one-bits separated by more than 256 empty words (two consecutive select
+		// samples more than 16384 bits apart), cluster sizes chosen so that the 32nd, 64th, ... one-bit falls in the
+		// middle of a word that also holds its predecessor
+		for rep := 0; rep < g.n(6, 40); rep++ {
+			ws := []uint64{}
+			nclusters := 2 + g.intn(3)
+			for c := 0; c < nclusters; c++ {
+				// a cluster: a few words whose one-bits add up to around a multiple of 32
+				want := 32*(1+g.intn(2)) + []int{-3, -1, 0, 1, 2, 5}[g.intn(6)]
+				for want > 0 {
+					k := 1 + g.intn(12)
+					if k > want {
+						k = want
+					}
+					w := uint64(0)
+					for bitsSet := 0; bitsSet < k; {
+						b := uint(g.intn(64))
+						if w&(1<<b) == 0 {
+							w |= 1 << b
+							bitsSet++
+						}
+					}
+					ws = append(ws, w)
+					want -= k
+					if g.intn(3) == 0 {
+						ws = append(ws, 0)
+					}
+				}
+				if c < nclusters-1 {
+					ws = append(ws, make([]uint64, 257+g.intn(120))...)
+				}
+			}
+			n := popcount(ws)
+			s := showU64s(ws)
+			g.emit("idxsel32 %s", s)
+			g.emit("idxsel32r64 %s", s)
+			is := make([]uint64, n)
+			for i := range is {
+				is[i] = uint64(i)
+			}
+			g.emit("sel32m %s %s", s, showU64s(is))
+			g.emit("sel32r64m %s %s", s, showU64s(is))
+		}
 		// large bitmaps: more than 2^16 one-bits
 		for _, l := range []int{1030, 2101} {
 			if l > 2000 && !g.thorough() {
@@ -254,6 +314,40 @@ func init() {
 					}
 				}
 			}
+		}
+		// a single one-bit at every word position around 256 and 512 of a 600-word bitmap (block-wise scans), queried
+		// from both ends; consecutive cases have the same length, i.e. the same argument address with new contents
+		for _, wpos := range []int{240, 250, 251, 252, 253, 254, 255, 256, 257, 258, 260, 270, 500, 507, 508, 509, 510, 511, 512, 513, 515, 520} {
+			ws := make([]uint64, 600)
+			ws[0] = 1
+			ws[wpos] = 1 << uint(g.intn(64))
+			ws[599] = 1 << 63
+			s := showU64s(ws)
+			bit := 64*wpos + bits.TrailingZeros64(ws[wpos])
+			for _, ie := range [][2]int{{1, 38400}, {1, 38399}, {64, bit + 1}, {65, bit}, {1, 64 * wpos}, {bit + 1, 38400}, {bit, 38399}} {
+				if ie[0] <= ie[1] {
+					g.emit("nextone %s %d %d", s, ie[0], ie[1])
+					g.emit("prevone %s %d %d", s, ie[0], ie[1])
+				}
+			}
+		}
+		for rep := 0; rep < g.n(3, 12); rep++ {
+			l := 1500 + 100*rep
+			ws := make([]uint64, l)
+			ws[0] = 0x80
+			ws[l-1] = 1
+			s1 := showU64s(ws)
+			e := 64*(l-1) - g.intn(200)
+			g.emit("prevone %s 0 %d", s1, e)
+			g.emit("nextone %s 8 %d", s1, e)
+			// the same bitmap with one more bit in the middle of the stretch just scanned
+			mid := 64*(l/2) + g.intn(64)
+			ws[mid/64] |= 1 << uint(mid%64)
+			s2 := showU64s(ws)
+			g.emit("prevone %s 0 %d", s2, e)
+			g.emit("nextone %s 8 %d", s2, e)
+			g.emit("prevone %s 0 %d", s2, mid)
+			g.emit("prevone %s 0 %d", s2, mid+1)
 		}
 		// long scans: more than 1024 empty words between the query and the answer
 		for rep := 0; rep < g.n(2, 8); rep++ {
